@@ -105,6 +105,7 @@ impl World {
             rec: rec.clone(),
         };
         let denom2 = denom.clone();
+        let taddr = trader_addrs();
         let mut app: PApp = AppBuilder::new()
             .with_bank(bank)
             .with_custom(NoCustom {})
@@ -117,7 +118,7 @@ impl World {
                             .inner
                             .init_balance(
                                 storage,
-                                &Addr::unchecked(*t),
+                                &Addr::unchecked(taddr[*t].clone()),
                                 vec![Coin::new(trader_bal as u128, denom2.clone())],
                             )
                             .unwrap();
@@ -135,10 +136,7 @@ impl World {
             });
 
         let owner = Addr::unchecked("owner");
-        let mut addr: BTreeMap<String, String> = BTreeMap::new();
-        for a in ACCOUNTS.iter() {
-            addr.insert(a.to_string(), a.to_string());
-        }
+        let mut addr: BTreeMap<String, String> = trader_addrs();
 
         let token_id = app.store_code(wrap(
             Box::new(ContractWrapper::new(
@@ -214,7 +212,7 @@ impl World {
         let mut init_bal: Vec<Cw20Coin> = vec![];
         for t in TRADERS.iter() {
             init_bal.push(Cw20Coin {
-                address: t.to_string(),
+                address: addr[*t].clone(),
                 amount: u(trader_bal),
             });
         }
@@ -371,7 +369,7 @@ impl World {
             if allow > 0 {
                 for t in TRADERS.iter() {
                     app.execute_contract(
-                        Addr::unchecked(*t),
+                        Addr::unchecked(addr[*t].clone()),
                         token.clone(),
                         &Cw20ExecuteMsg::IncreaseAllowance {
                             spender: engine.to_string(),
@@ -909,6 +907,21 @@ impl World {
             Err(_) => Err("panic:".to_string()),
         }
     }
+}
+
+/// Real-looking (long) addresses for the accounts; tr2 and tr3 share their first 32 bytes, so a
+/// storage key built from a truncated address would alias them.
+pub fn trader_addrs() -> BTreeMap<String, String> {
+    let mut addr: BTreeMap<String, String> = BTreeMap::new();
+    for a in ACCOUNTS.iter() {
+        addr.insert(a.to_string(), a.to_string());
+    }
+    let prefix = "cosmwasm1sharedprefix00000000000"; // 32 bytes
+    addr.insert("tr1".into(), "cosmwasm1trader1qqqqqqqqqqqqqqqqqqqqqqqqqqqqqq".into());
+    addr.insert("tr2".into(), format!("{}tr2", prefix));
+    addr.insert("tr3".into(), format!("{}tr3", prefix));
+    addr.insert("liq".into(), "cosmwasm1liquidatorqqqqqqqqqqqqqqqqqqqqqqqqq".into());
+    addr
 }
 
 pub fn lp(ns: &[u8]) -> Vec<u8> {
